@@ -167,6 +167,20 @@ let run_tx (a : string list) : string =
   let toks = List.map (fun x -> if x = "{" then TO else if x = "}" then TC else TW (n_of_int (int_of_string x))) (items (field "t:")) in
   if load_c cvs bs toks then "err" else "ok"
 
+(* ---- binary state reader: TB n:<number of variables> b:<kwhex>.<typehex>.<kind>.<nvar>,.. d:<hex bytes> *)
+let run_tb (a : string list) : string =
+  let field p = List.fold_left (fun acc t ->
+      if String.length t >= String.length p && String.sub t 0 (String.length p) = p
+      then String.sub t (String.length p) (String.length t - String.length p) else acc) "" a in
+  let items s = if s = "" || s = "-" then [] else String.split_on_char ',' s in
+  let ncv = nat_of_int (int_of_string (field "n:")) in
+  let bs = List.filter_map (fun x ->
+      match String.split_on_char '.' x with
+      | [kw; ty; kd; nv] -> Some { bb_kw = unhex kw; bb_type = unhex ty; bb_kind = nat_of_int (int_of_string kd);
+                                   bb_nvar = nat_of_int (int_of_string nv) }
+      | _ -> None) (items (field "b:")) in
+  if load_bin_c ncv bs (unhex (field "d:")) then "err" else "ok"
+
 let () =
   try
     while true do
@@ -175,6 +189,7 @@ let () =
       | "MS" :: a -> print_endline (run_ms a)
       | "CR" :: a -> print_endline (run_cr a)
       | "TX" :: a -> print_endline (run_tx a)
+      | "TB" :: a -> print_endline (run_tb a)
       | [] -> ()
       | _ -> print_endline "?"
     done
